@@ -305,10 +305,19 @@ def live_sd(ctx, spec, rng):
     state = dict(i=-1)
     datagrams = []
 
+    import someip.sd as _S
+
+    adapters = {mc: _S.DatagramProtocolAdapter(prot, is_multicast=mc) for mc in (False, True)}
+
     def inject(i, data, src, mc):
         state["i"] = i
         try:
-            prot.datagram_received(data, src, mc)
+            if i % 2:
+                # the way datagrams arrive in a deployment: through the adapter that create_endpoints() puts between each of
+                # the two sockets and the protocol object
+                adapters[mc].datagram_received(data, src)
+            else:
+                prot.datagram_received(data, src, mc)
         except BaseException as exc:  # noqa: B036
             escaped.append((i, type(exc).__name__, repr(exc)))
 
